@@ -102,7 +102,11 @@ int cf_wait_done(int slot, int seconds)
 void cf_post_done(int slot) { sem_post(&S[slot].done); }
 void cf_wait_go(int slot) { w(&S[slot].go); }
 int cf_join(int slot) { int r = pthread_join(S[slot].th, 0); S[slot].alive = 0; return r; }
+/* called from inside a callback body through cffi: a callback nested in a callback on the same
+   thread (gil_ensure finds the thread state current: the PyGILState_LOCKED branch) */
+int cf_nested(int kind, int arg) { return CB[kind & 1](arg); }
 """
+NEST = 1 << 20
 
 TIMEOUT = 120
 F_CALL, F_EXIT, F_RUN = 1, 2, 3
@@ -117,11 +121,12 @@ def build(tmpdir):
     lib = os.path.join(tmpdir, "lib%s.so" % TAG)
     core.gcc_shared(C_SRC, lib, flags=["-pthread"])
     ffi = cffi.FFI()
-    ffi.cdef('extern "Python" int cf_extpy(int);')
-    ffi.set_source("_%s_api" % TAG, "")
+    ffi.cdef('extern "Python" int cf_extpy(int); int cf_nested(int kind, int arg);')
+    ffi.set_source("_%s_api" % TAG, "int cf_nested(int kind, int arg);")
     cpath = os.path.join(tmpdir, "_%s_api.c" % TAG)
     ffi.emit_c_code(cpath)
-    core.build_ext_module("_%s_api" % TAG, cpath, tmpdir)
+    core.build_ext_module("_%s_api" % TAG, cpath, tmpdir,
+                          flags=["-L" + tmpdir, "-l" + TAG, "-Wl,-rpath," + tmpdir])
     return tmpdir
 
 
@@ -209,6 +214,7 @@ class Child:
         self.errors = []
         self.nslot = 0
         self.lock = threading.Lock()
+        self.outer = {}
 
     # ---- observation
     def tstates(self):
@@ -233,6 +239,10 @@ class Child:
             f = self.thread_of[slot]
             tok = api.PyThreadState_Get()
             seen = getattr(self.tl, "v", None)
+            if x >= NEST:
+                # the nested callback: same thread state, same thread-local data, GIL held
+                return 1 if (api.PyGILState_Check() == 1 and tok == self.outer.get(f) and
+                             seen == x - NEST) else 0
             ok = (api.PyGILState_Check() == 1 and
                   self.threading.get_ident() == h.cf_self(slot) and
                   tok in self.tstates())
@@ -252,6 +262,11 @@ class Child:
                     self.gc.collect()
             v = f * 1000 + n
             self.tl.v = v
+            if n % 2 == 0:
+                self.outer[f] = tok
+                inner = self.lib.cf_nested(n // 2, NEST + v)
+                if inner != 1 or api.PyThreadState_Get() != tok or api.PyGILState_Check() != 1:
+                    e["ok"] = False        # verdict clause "valid"
             e2 = {"ev": "SetLocal", "f": f, "v": v}
             e3 = {"ev": "CbExit", "f": f, "live": None}
             if self.mode[f] == "lock":
